@@ -31,7 +31,32 @@ documentation, which agrees with the usual textbook ones):
 * MProcess  "*-type1": documented pure-state sets (Kraus = projectors onto
   them); "*-type2": documented Kraus |b0><bk|; parity-type1: (II+-AA)/2.
   bell-type1: the docstring documents the order (psi+,psi-,phi+,phi-).
+
+HISTORY / COMBINATION steps (a catalogue is a pure function of (name, form, system, ids): whatever was asked before,
+whatever the caller did with its own copies of earlier answers, the answer is judged by the same oracles as the first
+one, never against an earlier answer of quara; keys that can only come from such a step carry a suffix, and a mechanism
+that already fired in the plain first pass of the case keeps its ordinary key):
+
+* `:second-call`  after the first pass of a case the driver OVERWRITES every raw array the catalogue returned to it
+  (arrays returned by generate_* functions belong to the caller; arrays that are not writeable are left alone; objects
+  and their attributes are never touched) and asks the same name again: forms in the reverse order, objects with the
+  non-default option is_physicality_required=False, single-system gates with the optional dims / ids omitted on every
+  other name.  (A catalogue that hands out its cached array, an "already computed" flag, an option honoured once.)
+* `:sibling-system`  the same name is asked on a SECOND composite system of the same size living in the same process
+  (other elemental ids; for states and POVMs, whose vector forms take the basis as an argument, also another orthonormal
+  Hermitian basis: generate_composite_system(basis=get_normalized_hermitian_basis)), then on the first system again.
+  Every object must also belong to the system it was asked for (`on-system-asked`).  (Caches keyed by name / size only.)
+* `:result-changed-after-later-calls`  arrays and objects returned to the driver are snapshotted when returned and read
+  again (public attributes vec / vecs / hs / hss / ps) at the end of the case and of the next two cases.  (A result that
+  aliases an internal buffer which later generations overwrite.)
+* `:asked-again-after-other-names`  a last case of every shard asks every name of the shard once more, in the reverse
+  order and in one form in rotation (other id orders / the other system for multi-qubit gates), and judges it against
+  the textbook table; the legacy constructors and tester sets are compared a second time; every get_*_names* list is
+  read again and must be the list read at the start.  (Cached arrays modified in place by a later call.)  In a
+  single-case replay the generations of the shard are first repeated unjudged so that the history exists.
 """
+import contextlib
+import inspect
 import itertools
 import re
 import time
@@ -51,7 +76,12 @@ RULE = ("complete enumeration of the catalogues: every name of get_state_names_*
         "wrong case; gate names: every misspelling with 1-2 of the 7 forms in rotation and the first three with all forms; "
         "two-base names: 3 misspellings in quick, 1 in thorough) and on composite systems of another size (all four other "
         "systems; 2-qutrit gate names: one other system per name, two-base names every 5th / 10th name).  A case is distinct by (catalogue, name, form, ids, "
-        "system) and every case is non-trivial (each is a different catalogue entry or a different non-entry)")
+        "system) and every case is non-trivial (each is a different catalogue entry or a different non-entry).  History steps per "
+        "case (see the module docstring): the returned raw arrays are overwritten by the caller and the name is asked a second time "
+        "(reverse form order, is_physicality_required=False, optional dims/ids omitted); the name is asked on a sibling system of the "
+        "same size (other ids; states / POVMs: another Hermitian basis) and on the first one again; results held by the driver are "
+        "read again after the later generations of three cases; a last case per shard asks every name again in reverse order in one "
+        "rotating form and re-reads the name lists")
 ANCHORS = [
     "quara/objects/state_typical.py:generate_state_from_name",
     "quara/objects/state_typical.py:generate_state_object_from_state_name_object_name",
@@ -79,7 +109,8 @@ ANCHORS = [
 ]
 REQUIRED_REACH = ANCHORS
 REQUIRED_ORACLES = ["generate", "physical", "cross-form", "textbook", "maps-named-states", "expmL-vs-gate",
-                    "legacy", "unknown-name-raises", "wrong-size-raises", "ids"]
+                    "legacy", "unknown-name-raises", "wrong-size-raises", "ids",
+                    "on-system-asked", "held-result-unchanged", "name-lists-stable"]
 MIN_EVALS = {"quick": 50000, "thorough": 400000}
 WATCHDOG = {"quick": 1500, "thorough": 5400}
 EXHAUSTIVE = {"quick": False, "thorough": True}
@@ -91,6 +122,11 @@ EXHAUSTIVE_SCOPE = ("thorough: every name of every get_*_names* list (state 749,
                     "length of each catalogue list.  quick: the same except ~600 stratified two-base 2-qutrit names.  "
                     "Misspellings: all single-edit neighbours of every name (two-base names: one per name in thorough)")
 ASSUMPTIONS = [
+    "history steps: arrays returned by the catalogue's generate_* functions belong to the caller (the driver overwrites its own "
+    "copies between two calls; read-only arrays, quara objects and their attributes are never modified by the driver)",
+    "states and POVMs are also asked on composite systems carrying quara's normalized Hermitian basis "
+    "(generate_composite_system(basis=get_normalized_hermitian_basis(d))), whose vector forms take the basis as an argument; "
+    "gates, instruments and ensembles only on systems with the default bases (other elemental ids)",
     "scipy.linalg.expm / numpy.linalg.eigh for the exponentials of the reference side",
     "EffectiveLindbladian objects of 2-qutrit names are generated with is_physicality_required=False except the first of "
     "each shard (quara's own verdict costs 3.4 s per object and belongs to C18); physicality is judged by the reference",
@@ -120,6 +156,7 @@ SYSDEF = {"1qubit": ("qubit", 1), "2qubit": ("qubit", 2), "3qubit": ("qubit", 3)
           "2qutrit": ("qutrit", 2)}
 SYSDIM = {"1qubit": 2, "2qubit": 4, "3qubit": 8, "1qutrit": 3, "2qutrit": 9}
 GAPPED = {"2qubit": [2, 5], "3qubit": [1, 4, 6]}
+SIBLING = {"1qubit": [3], "2qubit": [4, 7], "3qubit": [2, 3, 8], "1qutrit": [5], "2qutrit": [1, 6]}   # ids of the sibling systems
 
 
 def proj(v):
@@ -614,15 +651,56 @@ def err(a, b):
     return float(np.max(np.abs(a - b))) if a.size else 0.0
 
 
+def scribble(x):
+    """the caller overwrites, in place, the arrays it was given (raw arrays returned by generate_* functions are the
+    caller's; read-only arrays and quara objects are left alone); returns the number of arrays overwritten"""
+    if isinstance(x, np.ndarray):
+        if x.flags.writeable and x.size and x.dtype.kind in "fc":
+            x[...] = (0.4375 - 0.1875j) if x.dtype.kind == "c" else 0.4375
+            return 1
+        return 0
+    if isinstance(x, (list, tuple)):
+        return sum(scribble(y) for y in x)
+    return 0
+
+
+def _readers(val):
+    """(getter, snapshot) pairs of the numerical content of a result: raw arrays, lists of them, and the public data
+    attributes of quara objects"""
+    if isinstance(val, np.ndarray):
+        return [((lambda a=val: a), np.array(val))]
+    if isinstance(val, (list, tuple)):
+        return [r for v in val for r in _readers(v)]
+    t = type(val).__name__
+    if t == "State":
+        return [((lambda o=val: o.vec), np.array(val.vec))]
+    if t == "Povm":
+        return [((lambda o=val, k=k: o.vecs[k]), np.array(v)) for k, v in enumerate(val.vecs)]
+    if t in ("Gate", "EffectiveLindbladian"):
+        return [((lambda o=val: o.hs), np.array(val.hs))]
+    if t == "MProcess":
+        return [((lambda o=val, k=k: o.hss[k]), np.array(v)) for k, v in enumerate(val.hss)]
+    if t == "StateEnsemble":
+        out = [((lambda o=val, k=k: o.states[k].vec), np.array(st.vec)) for k, st in enumerate(val.states)]
+        return out + [((lambda o=val: np.asarray(o.prob_dist.ps, dtype=float)), np.array(val.prob_dist.ps, dtype=float))]
+    return []
+
+
 class Sys:
     """one composite system + vectorised transcription of qv.ref for it (cross-checked against qv.ref)"""
 
-    def __init__(self, skey, names=None):
+    def __init__(self, skey, names=None, basis=None):
         from quara.objects.composite_system_typical import generate_composite_system
 
         mode, num = SYSDEF[skey]
         self.skey = skey
-        self.c_sys = generate_composite_system(mode, num, ids_esys=list(names) if names else None)
+        if basis == "hermitian":
+            from quara.objects.matrix_basis import get_normalized_hermitian_basis
+
+            self.c_sys = generate_composite_system(mode, num, ids_esys=list(names) if names else None,
+                                                   basis=get_normalized_hermitian_basis(2 if mode == "qubit" else 3))
+        else:
+            self.c_sys = generate_composite_system(mode, num, ids_esys=list(names) if names else None)
         self.names = sorted(names) if names else list(range(num))
         self.dims = [2 if mode == "qubit" else 3] * num
         self.d = SYSDIM[skey]
@@ -745,16 +823,24 @@ class Run:
         self.table_state_cache = {}
         self.captured = {}
         self.n_crosscheck = 0
+        # history bookkeeping
+        self.sfx = ""            # suffix of the keys of the history step that is running
+        self.failed = set()      # keys that fired in the plain first pass of the current case
+        self.bad_names = set()   # (kind, system, name) with a plain failure: not asked again in the last case
+        self.case_no = 0
+        self.held = []           # [case_no, label, getter, snapshot] of results the driver keeps
+        self.n_second = 0
+        self.lists0 = self.read_lists()
         self.hs = HookSet(ctx)
         self._install()
 
     # ------------------------------------------------------------------ systems
-    def sys(self, skey, names=None):
-        k = (skey, tuple(names) if names else None)
+    def sys(self, skey, names=None, basis=None):
+        k = (skey, tuple(names) if names else None) if basis is None else (skey, tuple(names) if names else None, basis)
         s = self._sys.get(k)
         if s is None:
             with self.hs.paused():
-                s = Sys(skey, names)
+                s = Sys(skey, names, basis)
             e = s.self_check(np.random.default_rng(1234))
             if not e <= 1e-10:
                 self.ctx.mark_inconclusive(f"vectorised reference disagrees with qv.ref on {skey}: {e}")
@@ -762,25 +848,114 @@ class Run:
             self._by_csys[id(s.c_sys)] = s
         return s
 
+    def sibling(self, skey, basis=None):
+        """a second composite system of the same size in the same process: other elemental ids, optionally another
+        orthonormal Hermitian basis (a documented option of generate_composite_system)"""
+        return self.sys(skey, SIBLING[skey], basis)
+
     def count_enum(self, lst, n=1):
         self.enum[lst] = self.enum.get(lst, 0) + n
 
+    # ------------------------------------------------------------------ history bookkeeping
+    def read_lists(self):
+        """every get_*_names* list of the catalogues, as returned now (copies)"""
+        out = {}
+        for mod, label in ((self.ST, "state_typical"), (self.PT, "povm_typical"), (self.GT, "gate_typical"),
+                           (self.MT, "mprocess_typical"), (self.SE, "state_ensemble_typical")):
+            for nm in sorted(dir(mod)):
+                fn = getattr(mod, nm)
+                if not (nm.startswith("get_") and "_names" in nm and inspect.isfunction(fn) and fn.__module__ == mod.__name__):
+                    continue
+                if any(q.default is q.empty and q.kind in (q.POSITIONAL_ONLY, q.POSITIONAL_OR_KEYWORD, q.KEYWORD_ONLY)
+                       for q in inspect.signature(fn).parameters.values()):
+                    continue
+                try:
+                    val = fn()
+                except Exception:      # noqa: BLE001 - a list that cannot be read is judged by the enumeration, not here
+                    continue
+                if isinstance(val, (list, tuple)):
+                    out[f"{label}:{nm}"] = list(val)
+        return out
+
+    def begin_case(self):
+        self.sfx = ""
+        self.failed = set()
+        self.case_no += 1
+        self.n_second = int(self.ctx.cur_case or 0)      # rotation of the options of the second calls: a function of the case
+
+    def end_case(self, item):
+        self.reread()
+        if self.failed:
+            self.bad_names.add(tuple(item))
+        self.sfx = ""
+
+    @contextlib.contextmanager
+    def step(self, sfx):
+        old, self.sfx = self.sfx, sfx
+        try:
+            yield
+        finally:
+            self.sfx = old
+
+    def key(self, key):
+        """keys of a history step carry its suffix - unless the same mechanism already fired in the plain first pass of
+        this case (then it is no history effect and keeps its ordinary key, so that known findings keep matching)"""
+        if self.sfx and key is not None and key not in self.failed:
+            return key + self.sfx
+        return key
+
+    def hold(self, cat, tag, objs):
+        """the driver keeps results; each is snapshotted now and read again later (reread)"""
+        for form, val in objs.items():
+            for j, (get, snap) in enumerate(_readers(val)):
+                self.held.append([self.case_no, f"{cat}:{tag}:{form}", get, snap])
+
+    def reread(self):
+        """results held by the driver (of this case and of the two cases before) must still be what they were when
+        they were returned: one verdict per (case, form) with the worst deviation"""
+        self.held = [h for h in self.held if h[0] >= self.case_no - 2]
+        worst = {}
+        for cno, label, get, snap in self.held:
+            try:
+                e = err(np.asarray(get()), snap)
+            except Exception:      # noqa: BLE001 - an attribute that can no longer be read has changed
+                e = float("inf")
+            worst[(cno, label)] = max(worst.get((cno, label), 0.0), e)
+        for (cno, label), e in worst.items():
+            self.ctx.num("held-result-unchanged", e, TOLP, TOLF, key=f"{label}:result-changed-after-later-calls",
+                         info={"label": label, "cases_later": self.case_no - cno})
+
     # ------------------------------------------------------------------ verdict helpers
-    def num(self, oracle, e, key, info=None):
-        return self.ctx.num(oracle, e, TOLP, TOLF, key=key, info=info)
+    def num(self, oracle, e, key, info=None, tolp=TOLP):
+        r = self.ctx.num(oracle, e, tolp, TOLF, key=self.key(key), info=info)
+        if r == "fail" and not self.sfx:
+            self.failed.add(key)
+        return r
+
+    def truth(self, oracle, ok, key=None, info=None):
+        r = self.ctx.truth(oracle, ok, key=self.key(key), info=info)
+        if not ok and not self.sfx:
+            self.failed.add(key)
+        return r
 
     def gen_call(self, cat, ncls, form, fn, *a, info=None, **kw):
         """a catalogue entry must be generatable"""
         ok, val = self.ctx.attempt(fn, *a, **kw)
         if ok and val is None:
             ok = False
-            self.ctx.truth("generate", False, key=f"{cat}:{ncls}:generate[{form}]:returns-None", info=info)
+            self.truth("generate", False, key=f"{cat}:{ncls}:generate[{form}]:returns-None", info=info)
             return False, None
         if ok:
             self.ctx.truth("generate", True)
         else:
-            self.ctx.truth("generate", False, key=f"{cat}:{ncls}:generate[{form}]:" + self.ctx.exc_key(val), info=dict(info or {}, msg=str(val)[:200]))
+            self.truth("generate", False, key=f"{cat}:{ncls}:generate[{form}]:" + self.ctx.exc_key(val), info=dict(info or {}, msg=str(val)[:200]))
         return ok, val
+
+    def on_system(self, cat, ncls, form, obj, S, info=None):
+        """an object generated on a composite system belongs to that system"""
+        cs = getattr(obj, "composite_system", None)
+        self.truth("on-system-asked", cs is not None and (cs is S.c_sys or cs == S.c_sys),
+                   key=f"{cat}:{ncls}:{form}:composite_system-is-not-the-system-asked", info=info)
 
     def must_raise(self, oracle, key, fn, *a, info=None, **kw):
         with self.hs.paused():   # the dispatcher contracts judge catalogue entries; non-entries are judged here
@@ -913,20 +1088,15 @@ def do_unknown(R, cat, name, valid, calls, roundrobin=0, full_first=10 ** 9, cla
             ctx.nontrivial(cat, "unknown", m, form)
 
 
-def do_state(R, skey, name, unknown=True):
-    ctx, S, cat = R.ctx, R.sys(skey), "state_typical"
-    ncls = state_class(name)
-    info = {"name": name, "system": skey}
+def state_pass(R, S, name, forms, rho_t, info, phys=True):
+    """generate the given forms of a state name on S (in the given order) and judge them; returns {form: result}"""
+    cat, ncls = "state_typical", state_class(name)
     objs = {}
-    for form in STATE_FORMS:
-        ok, val = R.gen_call(cat, ncls, form, R.QT.generate_state_object, name, form, S.c_sys, info=info)
+    for form in forms:
+        args = (name, form, S.c_sys) if phys else (name, form, S.c_sys, False)
+        ok, val = R.gen_call(cat, ncls, form, R.QT.generate_state_object, *args, info=info)
         if ok:
             objs[form] = val
-        ctx.nontrivial(cat, name, form)
-    rho_t = table_state(name)
-    if rho_t is None or rho_t.shape[0] != S.d:
-        ctx.mark_inconclusive(f"textbook table has no {S.d}-dim state {name}")
-        rho_t = None
     v = objs.get("pure_state_vector")
     dm = objs.get("density_mat")
     dmv = objs.get("density_matrix_vector")
@@ -948,11 +1118,48 @@ def do_state(R, skey, name, unknown=True):
         if dm is not None:
             R.num("cross-form", err(S.op(dmv), dm) if dmv.shape == (S.d ** 2,) else float("inf"),
                   f"{cat}:{ncls}:cross-form[density_matrix_vector-vs-density_mat]", info)
+        elif rho_t is not None:      # asked without the density matrix (history steps): straight against the table
+            R.num("textbook", err(S.op(dmv), rho_t) if dmv.shape == (S.d ** 2,) else float("inf"),
+                  f"{cat}:{ncls}:textbook", dict(info, form="density_matrix_vector"))
     if st is not None:
+        R.on_system(cat, ncls, "state", st, S, info)
         if dmv is not None:
             R.num("cross-form", err(np.asarray(st.vec), dmv), f"{cat}:{ncls}:cross-form[state-vs-density_matrix_vector]", info)
         if rho_t is not None:
             R.num("textbook", err(ref.state_op(S.B, st.vec), rho_t), f"{cat}:{ncls}:textbook", dict(info, form="state"))
+    return objs
+
+
+def state_history(R, S, skey, name, objs, rho_t, info):
+    ctx, cat, ncls = R.ctx, "state_typical", state_class(name)
+    # the caller overwrites the arrays it was given and asks again: other order, non-default option
+    ctx.count("history:arrays-overwritten-by-the-caller", scribble([objs.get(f) for f in STATE_FORMS[:3]]))
+    with R.step(":second-call"):
+        o2 = state_pass(R, S, name, [f for f in reversed(STATE_FORMS) if f in objs], rho_t, info, phys=False)
+    R.hold(cat, ncls, o2)
+    R.hold(cat, ncls, {"state[first call]": objs.get("state")})
+    # the same name on a sibling system of the same size (other ids, other Hermitian basis), then on the first again
+    S2 = R.sibling(skey, "hermitian")
+    with R.step(":sibling-system"):
+        sib = [f for f in ("density_matrix_vector", "state") if f in objs]
+        state_pass(R, S2, name, sib, rho_t, dict(info, system_names=list(S2.names), basis="normalized hermitian"))
+        state_pass(R, S, name, sib[::-1], rho_t, info)
+    ctx.count("history:state-cases")
+
+
+def do_state(R, skey, name, unknown=True):
+    ctx, S, cat = R.ctx, R.sys(skey), "state_typical"
+    ncls = state_class(name)
+    info = {"name": name, "system": skey}
+    rho_t = table_state(name)
+    if rho_t is None or rho_t.shape[0] != S.d:
+        ctx.mark_inconclusive(f"textbook table has no {S.d}-dim state {name}")
+        rho_t = None
+    objs = state_pass(R, S, name, STATE_FORMS, rho_t, info)
+    for form in STATE_FORMS:
+        ctx.nontrivial(cat, name, form)
+    st = objs.get("state")
+    if st is not None:
         ok, st2 = ctx.attempt(R.QT.generate_qoperation, "state", name, S.c_sys)
         R.num("cross-form", err(st2.vec, st.vec) if ok else float("inf"), f"{cat}:{ncls}:cross-form[generate_qoperation-vs-state]", info)
         R.state_vec_cache[(id(S), name)] = np.array(st.vec)
@@ -965,6 +1172,73 @@ def do_state(R, skey, name, unknown=True):
     if unknown:
         calls = [(f, (lambda m, f=f: R.QT.generate_state_object(m, f, S.c_sys))) for f in STATE_FORMS]
         do_unknown(R, cat, name, R.all_state, calls)
+    state_history(R, S, skey, name, objs, rho_t, info)
+
+
+def povm_pass(R, S, name, forms, tab, info, phys=True, quiet=()):
+    """generate the given forms of a POVM name on S and judge them; forms in `quiet` may refuse (documented: the
+    pure-state vectors exist for rank-1 POVMs only) - if they answer they must agree"""
+    ctx, cat, ncls = R.ctx, "povm_typical", povm_class(name)
+    objs = {}
+    for form in forms:
+        if form == "vectors":
+            fn, args, kw = R.PT.generate_povm_object_from_povm_name_object_name, (name, form), {"basis": S.c_sys.basis()}
+        elif form == "povm" and not phys:
+            fn, args, kw = R.QT.generate_povm_object, (name, form, S.c_sys, False), {}
+        else:
+            fn, args, kw = R.QT.generate_povm_object, (name, form, S.c_sys), {}
+        if form in quiet:
+            ok, val = ctx.attempt(fn, *args, **kw)
+            ctx.skip("generate") if not ok else None
+        else:
+            ok, val = R.gen_call(cat, ncls, form, fn, *args, info=info, **kw)
+        if ok:
+            objs[form] = val
+
+    def table_err(ops):
+        return max([err(a, b) for a, b in zip(ops, tab)] + [0.0]) if len(ops) == len(tab) else float("inf")
+    ms = objs.get("matrices")
+    if ms is not None:
+        ms = [np.asarray(m, dtype=complex) for m in ms]
+        if tab is not None:
+            R.num("textbook", table_err(ms), f"{cat}:{ncls}:textbook", dict(info, form="matrices"))
+    psv = objs.get("pure_state_vectors")
+    if psv is not None and ms is not None:
+        e = max([err(proj(v), m) for v, m in zip(psv, ms)] + [0.0]) if len(psv) == len(ms) else float("inf")
+        R.num("cross-form", e, f"{cat}:{ncls}:cross-form[pure_state_vectors-vs-matrices]", info)
+    elif psv is not None and tab is not None:
+        R.num("textbook", table_err([proj(v) for v in psv]), f"{cat}:{ncls}:textbook", dict(info, form="pure_state_vectors"))
+    vs = objs.get("vectors")
+    if vs is not None and ms is not None:
+        e = max([err(S.op(v), m) for v, m in zip(vs, ms)] + [0.0]) if len(vs) == len(ms) else float("inf")
+        R.num("cross-form", e, f"{cat}:{ncls}:cross-form[vectors-vs-matrices]", info)
+    elif vs is not None and tab is not None:
+        ok_shape = all(np.asarray(v).shape == (S.d ** 2,) for v in vs)
+        R.num("textbook", table_err([S.op(v) for v in vs]) if ok_shape else float("inf"), f"{cat}:{ncls}:textbook", dict(info, form="vectors"))
+    pv = objs.get("povm")
+    if pv is not None:
+        R.on_system(cat, ncls, "povm", pv, S, info)
+        if vs is not None:
+            e = max([err(np.asarray(a), np.asarray(b)) for a, b in zip(pv.vecs, vs)] + [0.0]) if len(pv.vecs) == len(vs) else float("inf")
+            R.num("cross-form", e, f"{cat}:{ncls}:cross-form[povm-vs-vectors]", info)
+        if tab is not None:
+            R.num("textbook", table_err(ref.povm_ops(S.B, pv.vecs)), f"{cat}:{ncls}:textbook", dict(info, form="povm"))
+    return objs
+
+
+def povm_history(R, S, skey, name, objs, tab, info, quiet):
+    ctx, cat, ncls = R.ctx, "povm_typical", povm_class(name)
+    ctx.count("history:arrays-overwritten-by-the-caller", scribble([objs.get(f) for f in POVM_FORMS[:3]]))
+    with R.step(":second-call"):
+        o2 = povm_pass(R, S, name, [f for f in reversed(POVM_FORMS) if f in objs], tab, info, phys=False, quiet=quiet)
+    R.hold(cat, ncls, o2)
+    R.hold(cat, ncls, {"povm[first call]": objs.get("povm")})
+    S2 = R.sibling(skey, "hermitian")
+    with R.step(":sibling-system"):
+        sib = [f for f in ("vectors", "povm") if f in objs]
+        povm_pass(R, S2, name, sib, tab, dict(info, system_names=list(S2.names), basis="normalized hermitian"))
+        povm_pass(R, S, name, sib[::-1], tab, info)
+    ctx.count("history:povm-cases")
 
 
 def do_povm(R, skey, name, unknown=True):
@@ -972,47 +1246,16 @@ def do_povm(R, skey, name, unknown=True):
     ncls = povm_class(name)
     info = {"name": name, "system": skey}
     is_r1 = all(p in R.rank1 for p in name.split("_"))
-    objs = {}
-    for form in POVM_FORMS:
-        if form == "vectors":
-            fn, args, kw = R.PT.generate_povm_object_from_povm_name_object_name, (name, form), {"basis": S.c_sys.basis()}
-        else:
-            fn, args, kw = R.QT.generate_povm_object, (name, form, S.c_sys), {}
-        if form == "pure_state_vectors" and not is_r1:
-            ok, val = ctx.attempt(fn, *args, **kw)     # documented: only for rank-1 POVMs; if it answers it must agree
-            ctx.skip("generate") if not ok else None
-        else:
-            ok, val = R.gen_call(cat, ncls, form, fn, *args, info=info, **kw)
-        if ok:
-            objs[form] = val
-        ctx.nontrivial(cat, name, form)
+    quiet = () if is_r1 else ("pure_state_vectors",)
     tab = table_povm(name)
     if tab is None or tab[0].shape[0] != S.d:
         ctx.mark_inconclusive(f"textbook table has no {S.d}-dim POVM {name}")
         tab = None
-    ms = objs.get("matrices")
-    if ms is not None:
-        ms = [np.asarray(m, dtype=complex) for m in ms]
-        if tab is not None:
-            R.num("textbook", max([err(a, b) for a, b in zip(ms, tab)] + [0.0]) if len(ms) == len(tab) else float("inf"),
-                  f"{cat}:{ncls}:textbook", dict(info, form="matrices"))
-    psv = objs.get("pure_state_vectors")
-    if psv is not None and ms is not None:
-        e = max([err(proj(v), m) for v, m in zip(psv, ms)] + [0.0]) if len(psv) == len(ms) else float("inf")
-        R.num("cross-form", e, f"{cat}:{ncls}:cross-form[pure_state_vectors-vs-matrices]", info)
-    vs = objs.get("vectors")
-    if vs is not None and ms is not None:
-        e = max([err(S.op(v), m) for v, m in zip(vs, ms)] + [0.0]) if len(vs) == len(ms) else float("inf")
-        R.num("cross-form", e, f"{cat}:{ncls}:cross-form[vectors-vs-matrices]", info)
+    objs = povm_pass(R, S, name, POVM_FORMS, tab, info, quiet=quiet)
+    for form in POVM_FORMS:
+        ctx.nontrivial(cat, name, form)
     pv = objs.get("povm")
     if pv is not None:
-        if vs is not None:
-            e = max([err(np.asarray(a), np.asarray(b)) for a, b in zip(pv.vecs, vs)] + [0.0]) if len(pv.vecs) == len(vs) else float("inf")
-            R.num("cross-form", e, f"{cat}:{ncls}:cross-form[povm-vs-vectors]", info)
-        if tab is not None:
-            ops = ref.povm_ops(S.B, pv.vecs)
-            R.num("textbook", max([err(a, b) for a, b in zip(ops, tab)] + [0.0]) if len(ops) == len(tab) else float("inf"),
-                  f"{cat}:{ncls}:textbook", dict(info, form="povm"))
         ok, p2 = ctx.attempt(R.QT.generate_qoperation, "povm", name, S.c_sys)
         e = max(err(np.asarray(a), np.asarray(b)) for a, b in zip(p2.vecs, pv.vecs)) if ok and len(p2.vecs) == len(pv.vecs) else float("inf")
         R.num("cross-form", e, f"{cat}:{ncls}:cross-form[generate_qoperation-vs-povm]", info)
@@ -1029,26 +1272,44 @@ def do_povm(R, skey, name, unknown=True):
                  ("povm", lambda m: R.QT.generate_povm_object(m, "povm", S.c_sys))]
         do_unknown(R, cat, name, R.all_povm, calls,
                    classify=lambda m: "unlisted-product-of-listed-atoms" if m and all(atom_povm(q) is not None for q in m.split("_")) else None)
+    povm_history(R, S, skey, name, objs, tab, info, quiet)
 
 
-def do_mprocess(R, name):
+def judge_mp_table(R, S, name, got, tab, info, form):
+    """Hilbert-Schmidt matrices of the outcomes of a catalogued instrument against the documented Kraus operators"""
     ctx, cat = R.ctx, "mprocess_typical"
-    skey = MP_SYS.get(name)
-    if skey is None:
-        ctx.mark_inconclusive(f"textbook table has no mprocess {name}")
+    hs_t = [S.hs_of_kraus(o) for o in tab]
+    got = [np.asarray(h) for h in got]
+    if len(got) != len(hs_t):
+        R.num("textbook", float("inf"), f"{cat}:{name}:textbook[number-of-outcomes]", info)
         return
-    S = R.sys(skey)
-    info = {"name": name, "system": skey}
+    e = max(err(a, b) for a, b in zip(got, hs_t))
+    # the same instrument with its outcomes in another order is a different mechanism from a wrong instrument
+    best = min(max(err(got[p[i]], hs_t[i]) for i in range(len(got))) for p in itertools.permutations(range(len(got))))
+    if e >= TOLF and best <= TOLP:
+        # The outcome order of an instrument is a labelling convention; the only source for it is a docstring
+        # (bell-type1 documents Psi+,Psi-,Phi+,Phi- while the code and the POVM catalogue entry `bell` use
+        # Phi+,Phi-,Psi+,Psi-).  A docstring is not one of the alternative descriptions the statement compares:
+        # recorded, not judged; the order is still pinned by cross-form[instrument-povm-vs-povm-catalogue].
+        if not R.sfx:
+            ctx.count(f"recorded-not-judged:{cat}:{name}:outcome-order-differs-from-docstring")
+        ctx.skip("textbook")
+    else:
+        R.num("textbook", e, f"{cat}:{name}:textbook[{form}]", info)
+
+
+def mprocess_pass(R, S, name, forms, tab, info, phys=True, quiet=(), table_forms=("mprocess",)):
+    ctx, cat = R.ctx, "mprocess_typical"
     objs = {}
-    for form in MP_FORMS:
-        if form == "set_pure_state_vectors" and name not in R.mp_psv:
+    for form in forms:
+        kw = {} if phys or form != "mprocess" else {"is_physicality_required": False}
+        if form in quiet:
             ok, val = ctx.attempt(R.QT.generate_mprocess_object, name, form, S.c_sys)   # listed only for the pure-state names
             ctx.skip("generate") if not ok else None
         else:
-            ok, val = R.gen_call(cat, name, form, R.QT.generate_mprocess_object, name, form, S.c_sys, info=info)
+            ok, val = R.gen_call(cat, name, form, R.QT.generate_mprocess_object, name, form, S.c_sys, info=info, **kw)
         if ok:
             objs[form] = val
-        ctx.nontrivial(cat, name, form)
     ks = objs.get("set_kraus_matrices")
     psv = objs.get("set_pure_state_vectors")
     hss = objs.get("hss")
@@ -1063,30 +1324,21 @@ def do_mprocess(R, name):
     if hss is not None and hs_k is not None:
         e = max(err(np.asarray(a), b) for a, b in zip(hss, hs_k)) if len(hss) == len(hs_k) else float("inf")
         R.num("cross-form", e, f"{cat}:{name}:cross-form[hss-vs-set_kraus_matrices]", info)
+    if mp is not None:
+        R.on_system(cat, name, "mprocess", mp, S, info)
     if mp is not None and hss is not None:
         e = max(err(np.asarray(a), np.asarray(b)) for a, b in zip(mp.hss, hss)) if len(mp.hss) == len(hss) else float("inf")
         R.num("cross-form", e, f"{cat}:{name}:cross-form[mprocess-vs-hss]", info)
-    tab = table_mprocess(name)
-    if tab is None:
-        ctx.mark_inconclusive(f"textbook table has no mprocess {name}")
-    elif mp is not None:
-        hs_t = [S.hs_of_kraus(o) for o in tab]
-        got = [np.asarray(h) for h in mp.hss]
-        if len(got) != len(hs_t):
-            R.num("textbook", float("inf"), f"{cat}:{name}:textbook[number-of-outcomes]", info)
-        else:
-            e = max(err(a, b) for a, b in zip(got, hs_t))
-            # the same instrument with its outcomes in another order is a different mechanism from a wrong instrument
-            best = min(max(err(got[p[i]], hs_t[i]) for i in range(len(got))) for p in itertools.permutations(range(len(got))))
-            if e >= TOLF and best <= TOLP:
-                # The outcome order of an instrument is a labelling convention; the only source for it is a docstring
-                # (bell-type1 documents Psi+,Psi-,Phi+,Phi- while the code and the POVM catalogue entry `bell` use
-                # Phi+,Phi-,Psi+,Psi-).  A docstring is not one of the alternative descriptions the statement compares:
-                # recorded, not judged; the order is still pinned by cross-form[instrument-povm-vs-povm-catalogue].
-                ctx.count(f"recorded-not-judged:{cat}:{name}:outcome-order-differs-from-docstring")
-                ctx.skip("textbook")
-            else:
-                R.num("textbook", e, f"{cat}:{name}:textbook[mprocess]", info)
+    if tab is not None:
+        if mp is not None and "mprocess" in table_forms:
+            judge_mp_table(R, S, name, mp.hss, tab, info, "mprocess")
+        if hss is not None and "hss" in table_forms:
+            judge_mp_table(R, S, name, hss, tab, info, "hss")
+        if hs_k is not None and "set_kraus_matrices" in table_forms:
+            judge_mp_table(R, S, name, hs_k, tab, info, "set_kraus_matrices")
+        if psv is not None and "set_pure_state_vectors" in table_forms:
+            judge_mp_table(R, S, name, [S.hs_of_kraus([proj(v) for v in o]) for o in psv], tab, info, "set_pure_state_vectors")
+    if tab is not None and mp is not None:
         # POVM of the instrument == POVM catalogue entry of the same base name, in the same order
         base = name.rsplit("-", 1)[0]
         if base in R.all_povm and ks is not None:
@@ -1094,6 +1346,39 @@ def do_mprocess(R, name):
             if ok and len(pm) == len(ks):
                 e = max(err(sum(k.conj().T @ k for k in o), np.asarray(m)) for o, m in zip(ks, pm))
                 R.num("cross-form", e, f"{cat}:{name}:cross-form[instrument-povm-vs-povm-catalogue]", info)
+    return objs
+
+
+def mprocess_history(R, S, skey, name, objs, tab, info, quiet):
+    ctx, cat = R.ctx, "mprocess_typical"
+    ctx.count("history:arrays-overwritten-by-the-caller", scribble([objs.get(f) for f in MP_FORMS[:3]]))
+    with R.step(":second-call"):
+        o2 = mprocess_pass(R, S, name, [f for f in reversed(MP_FORMS) if f in objs], tab, info, phys=False, quiet=quiet)
+    R.hold(cat, name, o2)
+    R.hold(cat, name, {"mprocess[first call]": objs.get("mprocess")})
+    S2 = R.sibling(skey)
+    with R.step(":sibling-system"):
+        sib = [f for f in ("hss", "mprocess") if f in objs]
+        mprocess_pass(R, S2, name, sib, tab, dict(info, system_names=list(S2.names)), table_forms=("hss", "mprocess"))
+        mprocess_pass(R, S, name, sib[::-1], tab, info, table_forms=("hss", "mprocess"))
+    ctx.count("history:mprocess-cases")
+
+
+def do_mprocess(R, name):
+    ctx, cat = R.ctx, "mprocess_typical"
+    skey = MP_SYS.get(name)
+    if skey is None:
+        ctx.mark_inconclusive(f"textbook table has no mprocess {name}")
+        return
+    S = R.sys(skey)
+    info = {"name": name, "system": skey}
+    quiet = () if name in R.mp_psv else ("set_pure_state_vectors",)
+    tab = table_mprocess(name)
+    if tab is None:
+        ctx.mark_inconclusive(f"textbook table has no mprocess {name}")
+    objs = mprocess_pass(R, S, name, MP_FORMS, tab, info, quiet=quiet)
+    for form in MP_FORMS:
+        ctx.nontrivial(cat, name, form)
     for o in OTHER_SYS[skey]:
         So = R.sys(o)
         for form in ("hss", "mprocess"):
@@ -1101,24 +1386,50 @@ def do_mprocess(R, name):
                          R.QT.generate_mprocess_object, name, form, So.c_sys, info=info)
     calls = [(f, (lambda m, f=f: R.QT.generate_mprocess_object(m, f, S.c_sys))) for f in MP_FORMS]
     do_unknown(R, cat, name, R.all_mp, calls)
+    mprocess_history(R, S, skey, name, objs, tab, info, quiet)
+
+
+def ensemble_pass(R, S, name, info, phys=True):
+    cat, ncls = "state_ensemble_typical", "1qubit-state-name"
+    a2 = (name, S.c_sys) if phys else (name, S.c_sys, False)
+    if phys:
+        ok, ens = R.gen_call(cat, ncls, "state_ensemble", R.QT.generate_state_ensemble_object, name, "state_ensemble", S.c_sys, info=info)
+    else:       # the wrapper in qoperation_typical has no such option; the catalogue's own dispatcher has
+        ok, ens = R.gen_call(cat, ncls, "state_ensemble", R.SE.generate_state_ensemble_object_from_state_ensemble_name_object_name,
+                             name, "state_ensemble", S.c_sys, False, info=info)
+    ok2, el = R.gen_call(cat, ncls, "elements", R.SE.generate_state_ensemble_elements_from_name, *a2, info=info)
+    if ok and ok2:
+        states, ps = el
+        same = len(states) == len(ens.states) == len(ps)
+        e = max([err(np.asarray(a.vec), np.asarray(b.vec)) for a, b in zip(states, ens.states)] + [err(np.asarray(ens.prob_dist.ps, float), np.asarray(ps, float))]) if same else float("inf")
+        R.num("cross-form", e, f"{cat}:{ncls}:cross-form[ensemble-vs-elements]", info)
+    if ok:
+        for st in ens.states:
+            R.on_system(cat, ncls, "state_ensemble", st, S, info)
+    return {"state_ensemble": ens} if ok else {}
 
 
 def do_ensemble(R, name):
     ctx, cat, S = R.ctx, "state_ensemble_typical", R.sys("1qubit")
     ncls = "1qubit-state-name"
     info = {"name": name}
-    ok, ens = R.gen_call(cat, ncls, "state_ensemble", R.QT.generate_state_ensemble_object, name, "state_ensemble", S.c_sys, info=info)
-    ok2, el = R.gen_call(cat, ncls, "elements", R.SE.generate_state_ensemble_elements_from_name, name, S.c_sys, info=info)
+    objs = ensemble_pass(R, S, name, info)
     ctx.nontrivial(cat, name)
-    if ok and ok2:
-        states, ps = el
-        same = len(states) == len(ens.states) == len(ps)
-        e = max([err(np.asarray(a.vec), np.asarray(b.vec)) for a, b in zip(states, ens.states)] + [err(np.asarray(ens.prob_dist.ps, float), np.asarray(ps, float))]) if same else float("inf")
-        R.num("cross-form", e, f"{cat}:{ncls}:cross-form[ensemble-vs-elements]", info)
     for o in OTHER_SYS["1qubit"]:
         R.must_raise("wrong-size-raises", f"{cat}:wrong-system-size[1qubit-name-on-{o}]:state_ensemble:returns-object",
                      R.QT.generate_state_ensemble_object, name, "state_ensemble", R.sys(o).c_sys, info=info)
     do_unknown(R, cat, name, set(R.ens_names), [("state_ensemble", lambda m: R.QT.generate_state_ensemble_object(m, "state_ensemble", S.c_sys))])
+    if objs:        # (names that cannot be generated at all have been reported by the first pass)
+        with R.step(":second-call"):
+            o2 = ensemble_pass(R, S, name, info, phys=False)
+        R.hold(cat, ncls, o2)
+        R.hold(cat, ncls, {"state_ensemble[first call]": objs.get("state_ensemble")})
+        S2 = R.sibling("1qubit")
+        with R.step(":sibling-system"):
+            ensemble_pass(R, S2, name, dict(info, system_names=list(S2.names)))
+            ensemble_pass(R, S, name, info)
+        ctx.count("history:ensemble-cases")
+
 
 
 # ===================================================================== driver: gates + effective Lindbladians
@@ -1149,29 +1460,39 @@ def map_inputs(R, skey, name):
     return []
 
 
-def do_gate(R, S, name, ids, forms, el_forms, el_phys=True, maps=True, dims_arg=None):
-    """one catalogue gate name on system S with one ordering of the ids; returns the HS matrix of the catalogue unitary"""
-    ctx = R.ctx
-    cat, ecat = "gate_typical", "effective_lindbladian_typical"
+def gate_setup(R, S, name, ids):
+    """(tag, info, textbook unitary, its HS matrix) of a gate name on S with one ordering of the ids"""
     skey = S.skey
     ncls = gate_class(name)
     icls = ids_class(ids) if len(ids) > 1 and skey != "2qutrit" else "ascending"
     tag = f"{ncls}:ids={icls}" if name in R.asym or (len(ids) > 1 and skey != "2qutrit" and name != "identity") else ncls
     info = {"name": name, "ids": list(ids), "system": skey, "system_names": list(S.names)}
-    dims = list(S.dims) if dims_arg is None else dims_arg
     pos = [S.names.index(i) for i in ids]
     u_t = table_unitary(name, pos, skey)
     if u_t is None or u_t.shape[0] != S.d:
-        ctx.mark_inconclusive(f"textbook table has no {S.d}-dim gate {name}")
-        return None
-    hs_t = S.hs_of_unitary(u_t)
+        return tag, info, None, None
+    return tag, info, u_t, S.hs_of_unitary(u_t)
+
+
+def gate_pass(R, S, name, ids, forms, el_forms, u_t, hs_t, tag, info, el_phys=True, g_phys=True, maps=True, dims=None, omit=False):
+    """generate the given forms of a gate name and of the effective Lindbladian of the same name on S and judge them.
+    omit=True: the optional arguments dims / ids are not handed over (single-system gates, documented defaults);
+    g_phys / el_phys=False: objects are asked with is_physicality_required=False.  Returns (gate forms, Lindbladian
+    forms, HS matrix of the catalogue gate)"""
+    ctx = R.ctx
+    cat, ecat = "gate_typical", "effective_lindbladian_typical"
+    skey = S.skey
+    dims = list(S.dims) if dims is None else dims
     objs = {}
     R.captured.pop(("gate_mat", name), None)
     for form in forms:
-        ok, val = R.gen_call(cat, tag, form, R.QT.generate_gate_object, name, form, dims, list(ids), S.c_sys, info=info)
+        kw = {} if g_phys or form != "gate" else {"is_physicality_required": False}
+        if omit:
+            ok, val = R.gen_call(cat, tag, form, R.QT.generate_gate_object, name, form, c_sys=S.c_sys, info=dict(info, dims_ids="omitted"), **kw)
+        else:
+            ok, val = R.gen_call(cat, tag, form, R.QT.generate_gate_object, name, form, dims, list(ids), S.c_sys, info=info, **kw)
         if ok:
             objs[form] = val
-        ctx.nontrivial(cat, name, form, tuple(ids), tuple(S.names))
     u = objs.get("unitary_mat")
     gm = objs.get("gate_mat")
     g = objs.get("gate")
@@ -1196,23 +1517,27 @@ def do_gate(R, S, name, ids, forms, el_forms, el_phys=True, maps=True, dims_arg=
             R.num("cross-form", err(gm, hs_u), f"{cat}:{tag}:cross-form[gate_mat-vs-unitary_mat]", info)
         R.num("textbook", err(gm, hs_t), f"{cat}:{tag}:textbook", dict(info, form="gate_mat"))
     if g is not None:
+        R.on_system(cat, tag, "gate", g, S, info)
         if gm is not None:
             R.num("cross-form", err(np.asarray(g.hs), gm), f"{cat}:{tag}:cross-form[gate-vs-gate_mat]", info)
         R.num("textbook", err(np.asarray(g.hs), hs_t), f"{cat}:{tag}:textbook", dict(info, form="gate"))
         if S.d <= 4:
             ok, g2 = ctx.attempt(R.QT.generate_qoperation, "gate", name, S.c_sys, list(ids))
             R.num("cross-form", err(g2.hs, g.hs) if ok else float("inf"), f"{cat}:{tag}:cross-form[generate_qoperation-vs-gate]", info)
-    hs_cat = np.asarray(g.hs) if g is not None else (gm if gm is not None else hs_u)
+    hs_cat = np.asarray(g.hs) if g is not None else (np.array(gm) if gm is not None else hs_u)   # (a raw gate_mat may be overwritten later by the driver: copy)
     # ---- effective Lindbladian catalogue of the same name
     eo = {}
     for form in el_forms:
         kw = {}
         if form == "effective_lindbladian":
             kw["is_physicality_required"] = bool(el_phys)
-        ok, val = R.gen_call(ecat, tag, form, R.QT.generate_effective_lindbladian_object, name, form, dims, list(ids), S.c_sys, info=info, **kw)
+        if omit:
+            ok, val = R.gen_call(ecat, tag, form, R.QT.generate_effective_lindbladian_object, name, form, c_sys=S.c_sys,
+                                 info=dict(info, dims_ids="omitted"), **kw)
+        else:
+            ok, val = R.gen_call(ecat, tag, form, R.QT.generate_effective_lindbladian_object, name, form, dims, list(ids), S.c_sys, info=info, **kw)
         if ok:
             eo[form] = val
-        ctx.nontrivial(ecat, name, form, tuple(ids), tuple(S.names))
     h = eo.get("hamiltonian_mat")
     hv = eo.get("hamiltonian_vec")
     lm = eo.get("effective_lindbladian_mat")
@@ -1233,11 +1558,21 @@ def do_gate(R, S, name, ids, forms, el_forms, el_phys=True, maps=True, dims_arg=
     if hv is not None and h is not None:
         hv = np.asarray(hv)
         R.num("cross-form", err(S.op(hv), h) if hv.shape == (S.d ** 2,) else float("inf"), f"{ecat}:{tag}:cross-form[hamiltonian_vec-vs-hamiltonian_mat]", info)
+    elif hv is not None and "hamiltonian_mat" not in el_forms:     # asked alone (history steps): straight against the table
+        hv = np.asarray(hv)
+        e = err(S.hs_of_unitary(expm_herm(S.op(hv))), hs_t) if hv.shape == (S.d ** 2,) else float("inf")
+        R.num("textbook", e, f"{ecat}:{tag}:textbook", dict(info, form="expm(-iH) of hamiltonian_vec"))
     if lm is not None:
         lm = np.asarray(lm)
         if l_ref is not None:
             R.num("cross-form", err(lm, l_ref), f"{ecat}:{tag}:cross-form[effective_lindbladian_mat-vs(-i[H,.])]", info)
+        elif el is None and "hamiltonian_mat" not in el_forms:    # asked alone (history steps)
+            from scipy.linalg import expm
+
+            R.num("textbook", err(expm(lm), hs_t) if lm.shape == hs_t.shape else float("inf"), f"{ecat}:{tag}:textbook",
+                  dict(info, form="expm(effective_lindbladian_mat)"), tolp=TOLP_EXP)
     if el is not None:
+        R.on_system(ecat, tag, "effective_lindbladian", el, S, info)
         lh = np.asarray(el.hs)
         if lm is not None:
             R.num("cross-form", err(lh, lm), f"{ecat}:{tag}:cross-form[effective_lindbladian-vs-effective_lindbladian_mat]", info)
@@ -1249,10 +1584,10 @@ def do_gate(R, S, name, ids, forms, el_forms, el_phys=True, maps=True, dims_arg=
 
         ex = expm(np.asarray(lh, dtype=float) if not np.iscomplexobj(lh) else lh)
         v = S.gate_viol(ex)
-        ctx.num("physical", max(v["eq"], v["ineq"]), TOLP_EXP, TOLF, key=f"{ecat}:{tag}:expm(L)-not-physical", info=dict(info, sizes=v))
+        R.num("physical", max(v["eq"], v["ineq"]), f"{ecat}:{tag}:expm(L)-not-physical", dict(info, sizes=v), tolp=TOLP_EXP)
         if hs_cat is not None:
-            ctx.num("expmL-vs-gate", err(ex, hs_cat), TOLP_EXP, TOLF, key=f"{ecat}:{tag}:expm(L)-vs-gate-of-the-same-name", info=info)
-        ctx.num("textbook", err(ex, hs_t), TOLP_EXP, TOLF, key=f"{ecat}:{tag}:textbook", info=dict(info, form="expm(L)"))
+            R.num("expmL-vs-gate", err(ex, hs_cat), f"{ecat}:{tag}:expm(L)-vs-gate-of-the-same-name", info, tolp=TOLP_EXP)
+        R.num("textbook", err(ex, hs_t), f"{ecat}:{tag}:textbook", dict(info, form="expm(L)"), tolp=TOLP_EXP)
     # ---- named gates map named states as the table says (catalogue gate on catalogue states)
     if maps and g is not None:
         n_hit = 0
@@ -1276,7 +1611,65 @@ def do_gate(R, S, name, ids, forms, el_forms, el_phys=True, maps=True, dims_arg=
             ctx.count("named-state-pairs", n_hit)
         else:
             ctx.skip("maps-named-states")
+    return objs, eo, hs_cat
+
+
+GATE_RAW = ["unitary_mat", "gate_mat"]
+EL_RAW = ["hamiltonian_vec", "hamiltonian_mat", "effective_lindbladian_mat"]
+
+
+def gate_history(R, S, name, ids, objs, eo, u_t, hs_t, tag, info, dims, hist):
+    """history steps of one gate case; hist: "full" (all forms again), "raw" (2-qutrit: the matrices again, the objects
+    for every 4th name), "min" (thorough tier, names asked in reduced form: unitary and Hamiltonian again)"""
+    ctx = R.ctx
+    cat, ecat = "gate_typical", "effective_lindbladian_typical"
+    single = len(S.names) == 1
+    R.n_second += 1
+    ctx.count("history:arrays-overwritten-by-the-caller", scribble([objs.get(f) for f in GATE_RAW] + [eo.get(f) for f in EL_RAW]))
+    if hist == "full" or (hist == "raw" and R.n_second % 4 == 0):
+        f2, e2 = [f for f in reversed(GATE_FORMS) if f in objs], [f for f in reversed(EL_FORMS) if f in eo]
+    elif hist == "raw":
+        f2 = [f for f in ("gate_mat", "unitary_mat") if f in objs]
+        e2 = [f for f in ("effective_lindbladian_mat", "hamiltonian_mat") if f in eo]
+    else:
+        f2, e2 = [f for f in ("unitary_mat",) if f in objs], [f for f in ("hamiltonian_mat",) if f in eo]
+    omit = single and name != "identity" and R.n_second % 2 == 1
+    with R.step(":second-call"):
+        o2, eo2, _ = gate_pass(R, S, name, ids, f2, e2, u_t, hs_t, tag, info, el_phys=False, g_phys=False, maps=False, dims=dims, omit=omit)
+    R.hold(cat, tag, o2)
+    R.hold(ecat, tag, eo2)
+    R.hold(cat, tag, {"gate[first call]": objs.get("gate")})
+    R.hold(ecat, tag, {"effective_lindbladian[first call]": eo.get("effective_lindbladian")})
+    if hist == "full" and S.skey != "2qutrit":
+        # the same name on a sibling system of the same size (other ids, same relative order), then on the first one again
+        S2 = R.sibling(S.skey)
+        ids2 = [S2.names[S.names.index(i)] for i in ids]
+        tag2, info2, u2, hs2 = gate_setup(R, S2, name, ids2)
+        with R.step(":sibling-system"):
+            if u2 is not None:
+                gate_pass(R, S2, name, ids2, [f for f in ("gate",) if f in objs], [f for f in ("effective_lindbladian",) if f in eo],
+                          u2, hs2, tag2, info2, maps=False, el_phys=single)
+            gate_pass(R, S, name, ids, [f for f in ("gate",) if f in objs], [], u_t, hs_t, tag, info, maps=False, dims=dims)
+    ctx.count("history:gate-cases")
+
+
+def do_gate(R, S, name, ids, forms, el_forms, el_phys=True, maps=True, dims_arg=None, hist="full"):
+    """one catalogue gate name on system S with one ordering of the ids; returns the HS matrix of the catalogue unitary"""
+    ctx = R.ctx
+    cat, ecat = "gate_typical", "effective_lindbladian_typical"
+    tag, info, u_t, hs_t = gate_setup(R, S, name, ids)
+    if u_t is None:
+        ctx.mark_inconclusive(f"textbook table has no {S.d}-dim gate {name}")
+        return None
+    objs, eo, hs_cat = gate_pass(R, S, name, ids, forms, el_forms, u_t, hs_t, tag, info, el_phys=el_phys, maps=maps, dims=dims_arg)
+    for form in forms:
+        ctx.nontrivial(cat, name, form, tuple(ids), tuple(S.names))
+    for form in el_forms:
+        ctx.nontrivial(ecat, name, form, tuple(ids), tuple(S.names))
+    if hist:
+        gate_history(R, S, name, ids, objs, eo, u_t, hs_t, tag, info, dims_arg, hist)
     return hs_cat
+
 
 
 def gate_unknown(R, S, name, ids, roundrobin, full_first, valid=None):
@@ -1425,6 +1818,128 @@ def do_tester(R):
             lambda nm, S=S: R.PT.generate_povm_from_name(nm, S.c_sys), pv)
 
 
+# ===================================================================== last case of a shard: every name asked again
+
+def _generate_all(R, kind, a, name):
+    """the plain generations of one item, unjudged (used to rebuild the history when the last case is replayed alone);
+    returns False when one of them raised (such a name is reported in its own case and not asked again)"""
+    calls = []
+    if kind == "state":
+        S = R.sys(a)
+        calls = [(R.QT.generate_state_object, (name, f, S.c_sys)) for f in STATE_FORMS]
+    elif kind == "povm":
+        S = R.sys(a)
+        r1 = all(q in R.rank1 for q in name.split("_"))
+        calls = [(R.QT.generate_povm_object, (name, f, S.c_sys)) for f in POVM_FORMS if f != "vectors" and (r1 or f != "pure_state_vectors")]
+    elif kind == "mprocess" and name in MP_SYS:
+        S = R.sys(MP_SYS[name])
+        calls = [(R.QT.generate_mprocess_object, (name, f, S.c_sys)) for f in MP_FORMS if f != "set_pure_state_vectors" or name in R.mp_psv]
+    elif kind == "ensemble":
+        calls = [(R.QT.generate_state_ensemble_object, (name, "state_ensemble", R.sys("1qubit").c_sys))]
+    elif kind in ("identity", "gate1", "gate2", "gate3", "qt2"):
+        if kind == "qt2":
+            systems = [R.sys("2qutrit")]
+        elif kind == "gate3":
+            systems = [R.sys("3qubit") if a == "contiguous" else R.sys("3qubit", GAPPED["3qubit"])]
+        elif kind == "gate2":
+            systems = [R.sys("2qubit"), R.sys("2qubit", GAPPED["2qubit"])]
+        else:
+            systems = [R.sys(a)]
+        for S in systems:
+            for ids in (itertools.permutations(S.names) if kind in ("gate2", "gate3") else [tuple(S.names)]):
+                calls += [(R.QT.generate_gate_object, (name, f, list(S.dims), list(ids), S.c_sys)) for f in GATE_FORMS]
+                calls += [(R.QT.generate_effective_lindbladian_object, (name, f, list(S.dims), list(ids), S.c_sys, False)) for f in EL_FORMS]
+    good = True
+    for fn, args in calls:
+        try:
+            fn(*args)
+        except Exception:      # noqa: BLE001 - judged in the item's own case
+            good = False
+    return good
+
+
+def do_again(R, items):
+    """every name of the shard once more after all the others were asked: reverse order; small systems in every form,
+    large ones in one form in rotation (multi-qubit gates: every id order); judged against the textbook table.  Then the
+    legacy constructors / tester sets a second time, and the name lists against the lists read at the start."""
+    ctx = R.ctx
+    if ctx.only_case is not None:
+        with R.hs.paused():
+            for kind, a, name in items:
+                if not _generate_all(R, kind, a, name):
+                    R.bad_names.add((kind, a, name))
+    with R.step(":asked-again-after-other-names"):
+        for j, (kind, a, name) in enumerate(reversed(items)):
+            if (kind, a, name) in R.bad_names:
+                ctx.count("history:not-asked-again(plain failure in its own case)")
+                continue
+            info = {"name": name, "system": a}
+            if kind == "state":
+                S = R.sys(a)
+                rho_t = table_state(name)
+                rho_t = rho_t if rho_t is not None and rho_t.shape[0] == S.d else None
+                state_pass(R, S, name, STATE_FORMS[::-1] if S.d <= 4 else [STATE_FORMS[j % 4]], rho_t, info)
+            elif kind == "povm":
+                S = R.sys(a)
+                tab = table_povm(name)
+                tab = tab if tab is not None and tab[0].shape[0] == S.d else None
+                r1 = all(q in R.rank1 for q in name.split("_"))
+                forms = POVM_FORMS[::-1] if S.d <= 4 else [POVM_FORMS[j % 4]]
+                forms = [f for f in forms if r1 or f != "pure_state_vectors"] or ["matrices"]
+                povm_pass(R, S, name, forms, tab, info)
+            elif kind == "mprocess" and name in MP_SYS:
+                S = R.sys(MP_SYS[name])
+                forms = [f for f in reversed(MP_FORMS) if f != "set_pure_state_vectors" or name in R.mp_psv]
+                mprocess_pass(R, S, name, forms, table_mprocess(name), dict(info, system=MP_SYS[name]), table_forms=tuple(forms))
+            elif kind == "ensemble":
+                ensemble_pass(R, R.sys("1qubit"), name, info)
+            elif kind in ("identity", "gate1"):
+                S = R.sys(a)
+                ids = list(S.names)
+                tag, ginfo, u_t, hs_t = gate_setup(R, S, name, ids)
+                if u_t is None:
+                    continue
+                if S.d <= 4:
+                    gate_pass(R, S, name, ids, GATE_FORMS[::-1], EL_FORMS[::-1], u_t, hs_t, tag, ginfo, maps=False)
+                else:
+                    gate_pass(R, S, name, ids, ["unitary_mat"], ["hamiltonian_mat"], u_t, hs_t, tag, ginfo, maps=False)
+            elif kind == "gate2":
+                for S in (R.sys("2qubit", GAPPED["2qubit"]), R.sys("2qubit")):
+                    for ids in reversed(list(itertools.permutations(S.names))):
+                        tag, ginfo, u_t, hs_t = gate_setup(R, S, name, list(ids))
+                        if u_t is not None:
+                            gate_pass(R, S, name, list(ids), GATE_FORMS[::-1], EL_FORMS[::-1], u_t, hs_t, tag, ginfo, maps=False)
+            elif kind == "gate3":
+                S = R.sys("3qubit") if a == "contiguous" else R.sys("3qubit", GAPPED["3qubit"])
+                for ids in reversed(list(itertools.permutations(S.names))):
+                    tag, ginfo, u_t, hs_t = gate_setup(R, S, name, list(ids))
+                    if u_t is not None:
+                        gate_pass(R, S, name, list(ids), ["gate_mat", "unitary_mat"], ["hamiltonian_mat"], u_t, hs_t, tag, ginfo, maps=False)
+            elif kind == "qt2":
+                S = R.sys("2qutrit")
+                ids = list(S.names)
+                tag, ginfo, u_t, hs_t = gate_setup(R, S, name, ids)
+                if u_t is None:
+                    continue
+                rot = ("unitary_mat", "hamiltonian_mat", "gate_mat", "hamiltonian_vec") if ctx.tier == "quick" else ("unitary_mat", "hamiltonian_mat")
+                form = rot[j % len(rot)]
+                gate_pass(R, S, name, ids, [form] if form in GATE_FORMS else [], [form] if form in EL_FORMS else [],
+                          u_t, hs_t, tag, ginfo, maps=False)
+            ctx.count("history:names-asked-again")
+    kinds = {k for k, _, _ in items}
+    with R.step(":second-call"):
+        if "legacy" in kinds:
+            do_legacy(R)
+        if "tester" in kinds:
+            do_tester(R)
+    # the lists of names themselves: what a list function returns must not depend on what was asked in between
+    now = R.read_lists()
+    for label in sorted(R.lists0):
+        ctx.truth("name-lists-stable", now.get(label) == R.lists0[label], key=f"{label}:list-of-names-changed-after-later-calls",
+                  info={"length_at_start": len(R.lists0[label]), "length_now": len(now.get(label) or [])})
+
+
+
 # ===================================================================== run_shard
 
 def build_items(R, p, tier):
@@ -1467,7 +1982,12 @@ def run_shard(ctx):
     full = ctx.tier == "quick" or p.get("full", True)
     try:
         items = build_items(R, p, ctx.tier)
-        for i in ctx.cases(len(items)):
+        for i in ctx.cases(len(items) + 1):
+            R.begin_case()
+            if i == len(items):           # the history case: every name of the shard again
+                do_again(R, items)
+                R.end_case(("again", None, None))
+                continue
             kind, a, name = items[i]
             if kind == "state":
                 do_state(R, a, name)
@@ -1519,11 +2039,12 @@ def run_shard(ctx):
                 first = a == "single" and R.enum.get("gate:2qutrit-single", 0) == 0
                 one_other = [OTHER_SYS["2qutrit"][i % 4]]
                 if a == "single" or full:
-                    do_gate(R, S, name, list(S.names), GATE_FORMS, EL_FORMS, el_phys=first, maps=(a == "single"))
+                    do_gate(R, S, name, list(S.names), GATE_FORMS, EL_FORMS, el_phys=first, maps=(a == "single"), hist="raw")
                 else:
                     extra = i % 8 == 0
                     do_gate(R, S, name, list(S.names), GATE_FORMS if extra else ["unitary_mat", "gate"],
-                            EL_FORMS if extra else ["hamiltonian_mat", "effective_lindbladian"], el_phys=first, maps=False)
+                            EL_FORMS if extra else ["hamiltonian_mat", "effective_lindbladian"], el_phys=first, maps=False,
+                            hist="raw" if extra else "min")
                 if a == "single":
                     gate_unknown(R, S, name, list(S.names), roundrobin=1, full_first=3)
                     gate_wrong_size(R, "2qutrit", name, lambda So: ids_for("2qutrit", So), others=one_other)
@@ -1543,6 +2064,7 @@ def run_shard(ctx):
                 R.count_enum("gate:2qutrit-" + a)
             if i < 3 and kind in ("state", "povm", "gate1", "gate2", "gate3", "qt2"):
                 ctx.sample({"catalogue": kind, "system_or_class": a, "name": name})
+            R.end_case(items[i])
     finally:
         R.hs.uninstall()
     ctx.extra["enum"] = R.enum
